@@ -25,6 +25,10 @@ def cases(tier, seed):
         yield ('S', m)
     for spec in families.BIG_SPECS:
         yield ('B', spec)
+    from . import rt
+    for m in rt.collision_models():
+        yield ('SK', m)
+        yield ('SK', (m[0], ()))
     for m in families.models(11):
         for t in families.deep_trees()[::9]:
             yield ('SK', cm.with_ctc(m, t))
